@@ -28,6 +28,7 @@ import torch
 from gymnasium import spaces
 from hypothesis import strategies as st
 
+from vp.core import engine
 from vp.core.engine import HarnessError, Obligation, Property, Violation, _AbortCase, site_of
 from vp.gen import agents as ag
 from vp.gen import spaces as sp
@@ -777,7 +778,7 @@ def _bits(width):
 
 @st.composite
 def single_strategy(draw, tier):
-    algo = draw(st.sampled_from(SINGLE_ALGOS))
+    algo = draw(st.sampled_from(engine.stratum(SINGLE_ALGOS)))
     spec = {"algo": algo, "obsv": draw(st.integers(0, 2)), "seed": draw(st.integers(0, 999))}
     if algo in BANDITS:
         spec["act"] = draw(act_strategy(["discrete"]))
@@ -820,7 +821,7 @@ def single_strategy(draw, tier):
 
 @st.composite
 def multi_strategy(draw, tier):
-    algo = draw(st.sampled_from(MULTI_ALGOS))
+    algo = draw(st.sampled_from(engine.stratum(MULTI_ALGOS)))
     n_agents = draw(st.sampled_from([2, 3, 3]))
     spec = {"algo": algo, "obsv": draw(st.integers(0, 2)), "seed": draw(st.integers(0, 999)), "n_agents": n_agents}
     if algo == "IPPO":
